@@ -337,33 +337,56 @@ func classifyUrlConv(fd *ast.FuncDecl) string {
 	if fd.Body == nil {
 		return "other"
 	}
-	if len(fd.Body.List) == 1 {
-		if r, ok := fd.Body.List[0].(*ast.ReturnStmt); ok && len(r.Results) == 1 && exprStr(r.Results[0]) == "url" {
-			return "identity"
-		}
-	}
 	src := []string{}
 	for _, st := range fd.Body.List {
 		switch s := st.(type) {
 		case *ast.AssignStmt:
 			src = append(src, exprStr(s.Lhs[0])+"="+exprStr(s.Rhs[0]))
 		case *ast.IfStmt:
-			src = append(src, "if "+exprStr(s.Cond))
+			body := ""
+			for _, b := range s.Body.List {
+				switch bs := b.(type) {
+				case *ast.AssignStmt:
+					body += exprStr(bs.Lhs[0]) + "=" + exprStr(bs.Rhs[0]) + ";"
+				case *ast.ReturnStmt:
+					body += "return " + exprStr(bs.Results[0]) + ";"
+				}
+			}
+			src = append(src, "if "+exprStr(s.Cond)+" {"+body+"}")
+		case *ast.ForStmt:
+			body := ""
+			for _, b := range s.Body.List {
+				if bs, ok := b.(*ast.AssignStmt); ok {
+					body += exprStr(bs.Lhs[0]) + "=" + exprStr(bs.Rhs[0]) + ";"
+				}
+			}
+			src = append(src, "for "+exprStr(s.Cond)+" {"+body+"}")
 		case *ast.ReturnStmt:
 			src = append(src, "return "+exprStr(s.Results[0]))
 		}
 	}
-	want := []string{
+	got := strings.Join(src, "\n")
+	colon := strings.Join([]string{
 		`processedUrl=urlParamRegex.ReplaceAllString(url, ":$1")`,
-		`processedUrl=strings.ReplaceAll(processedUrl, "//", "/")`,
-		`if processedUrl == ""`,
-		`if !strings.HasPrefix(processedUrl, "/")`,
+		`for strings.Contains(processedUrl, "//") {processedUrl=strings.ReplaceAll(processedUrl, "//", "/");}`,
+		`if processedUrl == "" {return "/";}`,
+		`if !strings.HasPrefix(processedUrl, "/") {processedUrl="/" + processedUrl;}`,
 		`return processedUrl`,
+	}, "\n")
+	plain := strings.Join([]string{
+		`for strings.Contains(url, "//") {url=strings.ReplaceAll(url, "//", "/");}`,
+		`if !strings.HasPrefix(url, "/") {url="/" + url;}`,
+		`return url`,
+	}, "\n")
+	switch got {
+	case colon:
+		return "colon-squeeze-leading"
+	case plain:
+		return "squeeze-leading"
+	case "return url":
+		return "identity"
 	}
-	if strings.Join(src, "\n") == strings.Join(want, "\n") {
-		return "colon-dedup-once-leading"
-	}
-	return "other"
+	return "other: " + got
 }
 
 func extractRoutes(engine string, src string) routesOut {
